@@ -111,7 +111,7 @@ def main(ctx):
                                            if k.startswith("uri|")}
     for ep in ("named", "mixed", "var+ct", "named+ct", "mixed+ct"):
         ctx.require("endpoint_signature|%s" % ep)
-    for n in ("session_reused", "session_rejoined_on_same_transport", "invocation_while_unregistering", "service_object_falsy", "service_object_truthy", "receive_progress_false"):
+    for n in ("traceback_forwarding_on", "session_reused", "session_rejoined_on_same_transport", "invocation_while_unregistering", "service_object_falsy", "service_object_truthy", "receive_progress_false"):
         ctx.require(n)
     for fw in FWS:
         for beh in BEHAVIOURS:
@@ -478,6 +478,10 @@ def run_case(case):
                              **({"check_types": True} if case.get("ep", "").endswith("+ct") else {}))
 
     link = (Link1 if case["level"] == 1 else Link2)(case, {"on_join": on_join})
+    if case.get("tb"):
+        # the callee forwards tracebacks of failing endpoints (session.traceback_app = True): an ERROR
+        # still answers every failing invocation, with a 'traceback' keyword argument added
+        link.session.traceback_app = True
     log = []      # (step index, marshalled message)
     link.send([M.Welcome(1234, {"dealer": ROLE.RoleDealerFeatures()})])
     regs = {}
@@ -578,9 +582,29 @@ def replies_for(log, request):
     return out
 
 
+def _strip_tb(obs):
+    """traceback forwarding adds kwargs['traceback'] (a non-empty text or list) to every ERROR: it is
+    checked for presence, then removed before the payload comparison"""
+    missing = []
+    for _, m in obs["log"]:
+        if m[0] == 8 and m[1] == 68:
+            kw = m[6] if len(m) > 6 else None
+            tb = kw.pop("traceback", None) if isinstance(kw, dict) else None
+            if not (isinstance(tb, (str, list)) and len(tb) > 0):
+                missing.append(m[2])
+            if isinstance(kw, dict) and not kw:
+                del m[6:]
+                if len(m) == 6 and not m[5]:
+                    del m[5:]
+    return missing
+
+
 def judge(acc, case, obs):
     fw = acc.fw
     tk = case["tkind"]
+    if case.get("tb"):
+        # (whether a traceback is attached is C18's subject; errors the library raises itself have none)
+        _strip_tb(obs)
     ref = reference(case)
     tname = {"rs": "rawsocket", "ws": "websocket", "l1": "scripted"}[tk]
     d = "%s/%s invs=%s det=%s script=%s%s -> wrote %s; endpoint calls=%s escapes=%s closing=%s user_errors=%s" % (
@@ -741,6 +765,10 @@ def job(a):
                             one_case(acc, dict(base, invs=[{"beh": beh, "rp": rp, "args": "full"}],
                                                det=det, script=script, coalesce=False, burst=True))
                             acc.inc("burst_reads|%s|%s" % (a["tkind"], acc.fw))
+                        if len(script) == 1 and not coalesce:
+                            one_case(acc, dict(base, invs=[{"beh": beh, "rp": rp, "args": "full"}],
+                                               det=det, script=script, coalesce=False, tb=True))
+                            acc.inc("traceback_forwarding_on")
                         if len(script) <= 2 and not coalesce:
                             # endpoint signature shapes x register(check_types=True)
                             for ep in ("named", "mixed", "var+ct", "named+ct", "mixed+ct"):
